@@ -58,6 +58,7 @@ package evaluator
 //@   loop 0: invariant forall(j, 0, rangeindex+1, !hasCtl(block.Elements[j], controlType))
 
 //@ func hasCustomFunc
+//@   ints wrap64
 //@   ensures result ==> customFunc != nil
 //@   ensures result && t == object.STR_OBJ ==> customFunc.Str[funcName].fn != 0
 //@   ensures result && t == object.ARR_OBJ ==> customFunc.Arr[funcName].fn != 0
@@ -374,8 +375,12 @@ package evaluator
 //@   ensures result != nil
 //@   modifies nothing
 
+// C12: a key of the object is reachable under exactly its own spelling (also the empty key);
+// a missing key is an error unless the spelling with an upper-case first letter exists
 //@ func (e *Evaluator) evalObjectIndexExp
 //@   call newError#*: assert error-carries-the-construct: arg1 == node
+//@   goal exact-key-wins: has(as(obj, *object.Obj).Pairs, idx) ==> result == as(obj, *object.Obj).Pairs[idx]
+//@   goal missing-key: !has(as(obj, *object.Obj).Pairs, idx) && idx == "" ==> isErr(result)
 //@   requires obj != nil && istype(obj, *object.Obj) && node != nil
 //@   ensures result != nil
 //@   modifies nothing
@@ -454,6 +459,7 @@ package evaluator
 
 // ---- built-in functions (the dispatch table evaluator.functions registers each under its receiver type) ----
 //@ func strLenFunc
+//@   ints wrap64
 //@   goal counts-characters: result1 == nil && isInt(result0, lib("utf8.RuneCountInString", as(receiver, *object.Str).Value))
 //@   requires receiver != nil && istype(receiver, *object.Str)
 //@   ensures result1 == nil ==> result0 != nil
@@ -463,68 +469,84 @@ package evaluator
 //@   ensures result1 == nil ==> result0 != nil
 //@   modifies nothing
 //@ func strRawFunc
+//@   ints wrap64
 //@   goal raw-is-exact-unescape: result1 == nil && istype(result0, *object.Str) && as(result0, *object.Str).Value == lib("html.UnescapeString", as(receiver, *object.Str).Value)
 //@   requires receiver != nil && istype(receiver, *object.Str)
 //@   ensures result1 == nil ==> result0 != nil
 //@   modifies nothing
 //@ func strTrimFunc
+//@   ints wrap64
 //@   requires receiver != nil && istype(receiver, *object.Str)
 //@   ensures result1 == nil ==> result0 != nil
 //@   modifies nothing
 //@ func strTrimRightFunc
+//@   ints wrap64
 //@   requires receiver != nil && istype(receiver, *object.Str)
 //@   ensures result1 == nil ==> result0 != nil
 //@   modifies nothing
 //@ func strTrimLeftFunc
+//@   ints wrap64
 //@   requires receiver != nil && istype(receiver, *object.Str)
 //@   ensures result1 == nil ==> result0 != nil
 //@   modifies nothing
 //@ func strUpperFunc
+//@   ints wrap64
 //@   requires receiver != nil && istype(receiver, *object.Str)
 //@   ensures result1 == nil ==> result0 != nil
 //@   modifies nothing
 //@ func strLowerFunc
+//@   ints wrap64
 //@   requires receiver != nil && istype(receiver, *object.Str)
 //@   ensures result1 == nil ==> result0 != nil
 //@   modifies nothing
 //@ func strCapitalizeFunc
+//@   ints wrap64
 //@   requires receiver != nil && istype(receiver, *object.Str)
 //@   ensures result1 == nil ==> result0 != nil
 //@   modifies nothing
 //@ func strReverseFunc
+//@   ints wrap64
 //@   requires receiver != nil && istype(receiver, *object.Str)
 //@   ensures result1 == nil ==> result0 != nil
 //@   modifies nothing
 //@   loop 0: invariant i >= 0 && n == len(runes) && fresh(runes)
 //@ func strContainsFunc
+//@   ints wrap64
 //@   requires receiver != nil && istype(receiver, *object.Str)
 //@   ensures result1 == nil ==> result0 != nil
 //@   modifies nothing
 //@ func strTruncateFunc
+//@   ints wrap64
 //@   requires receiver != nil && istype(receiver, *object.Str)
 //@   ensures result1 == nil ==> result0 != nil
 //@   modifies nothing
 //@ func strDecimalFunc
+//@   ints wrap64
 //@   requires receiver != nil && istype(receiver, *object.Str)
 //@   ensures result1 == nil ==> result0 != nil
 //@   modifies nothing
 //@ func strAtFunc
+//@   ints wrap64
 //@   requires receiver != nil && istype(receiver, *object.Str)
 //@   ensures result1 == nil ==> result0 != nil
 //@   modifies nothing
 //@ func strFirstFunc
+//@   ints wrap64
 //@   requires receiver != nil && istype(receiver, *object.Str)
 //@   ensures result1 == nil ==> result0 != nil
 //@   modifies nothing
 //@ func strLastFunc
+//@   ints wrap64
 //@   requires receiver != nil && istype(receiver, *object.Str)
 //@   ensures result1 == nil ==> result0 != nil
 //@   modifies nothing
 //@ func strRepeatFunc
+//@   ints wrap64
 //@   requires receiver != nil && istype(receiver, *object.Str)
 //@   ensures result1 == nil ==> result0 != nil
 //@   modifies nothing
 //@ func arrayLenFunc
+//@   ints wrap64
 //@   goal len: isInt(result0, len(as(receiver, *object.Array).Elements)) && result1 == nil
 //@   requires receiver != nil && istype(receiver, *object.Array)
 //@   ensures result1 == nil ==> result0 != nil
@@ -534,6 +556,7 @@ package evaluator
 //@   ensures result1 == nil ==> result0 != nil
 //@   modifies nothing
 //@ func arrayRandFunc
+//@   ints wrap64
 //@   requires receiver != nil && istype(receiver, *object.Array)
 //@   ensures result1 == nil ==> result0 != nil
 //@   modifies nothing
@@ -546,11 +569,13 @@ package evaluator
 //@   loop 0: invariant fresh(reversed) && len(reversed) == length && length == len(elems) && forall(j, 0, rangeindex+1, reversed[length-j-1] != nil && reversed[length-j-1] == elems[j])
 //@   loop 0: invariant elems == as(receiver, *object.Array).Elements
 //@ func arraySliceFunc
+//@   ints wrap64
 //@   goal never-an-invalid-slice: result1 == nil ==> istype(result0, *object.Array) && len(as(result0, *object.Array).Elements) <= len(as(receiver, *object.Array).Elements)
 //@   requires receiver != nil && istype(receiver, *object.Array)
 //@   ensures result1 == nil ==> result0 != nil
 //@   modifies nothing
 //@ func arrayShuffleFunc
+//@   ints wrap64
 //@   requires receiver != nil && istype(receiver, *object.Array)
 //@   ensures result1 == nil ==> result0 != nil
 //@   modifies nothing
@@ -574,30 +599,37 @@ package evaluator
 //@   modifies nothing
 //@   loop 0: invariant fresh(newElems) && argsLen == len(args) && len(newElems) == len(elems)+argsLen && forall(k, 0, argsLen+rangeindex+1, newElems[k] != nil)
 //@ func floatIntFunc
+//@   ints wrap64
 //@   requires receiver != nil && istype(receiver, *object.Float)
 //@   ensures result1 == nil ==> result0 != nil
 //@   modifies nothing
 //@ func floatStrFunc
+//@   ints wrap64
 //@   requires receiver != nil && istype(receiver, *object.Float)
 //@   ensures result1 == nil ==> result0 != nil
 //@   modifies nothing
 //@ func floatAbsFunc
+//@   ints wrap64
 //@   requires receiver != nil && istype(receiver, *object.Float)
 //@   ensures result1 == nil ==> result0 != nil
 //@   modifies nothing
 //@ func floatCeilFunc
+//@   ints wrap64
 //@   requires receiver != nil && istype(receiver, *object.Float)
 //@   ensures result1 == nil ==> result0 != nil
 //@   modifies nothing
 //@ func floatFloorFunc
+//@   ints wrap64
 //@   requires receiver != nil && istype(receiver, *object.Float)
 //@   ensures result1 == nil ==> result0 != nil
 //@   modifies nothing
 //@ func floatRoundFunc
+//@   ints wrap64
 //@   requires receiver != nil && istype(receiver, *object.Float)
 //@   ensures result1 == nil ==> result0 != nil
 //@   modifies nothing
 //@ func intFloatFunc
+//@   ints wrap64
 //@   requires receiver != nil && istype(receiver, *object.Int)
 //@   ensures result1 == nil ==> result0 != nil
 //@   modifies nothing
@@ -608,29 +640,35 @@ package evaluator
 //@   ensures result1 == nil ==> result0 != nil
 //@   modifies nothing
 //@ func intStrFunc
+//@   ints wrap64
 //@   requires receiver != nil && istype(receiver, *object.Int)
 //@   ensures result1 == nil ==> result0 != nil
 //@   modifies nothing
 //@ func intLenFunc
+//@   ints wrap64
 //@   requires receiver != nil && istype(receiver, *object.Int)
 //@   ensures result1 == nil ==> result0 != nil
 //@   modifies nothing
 //@ func intDecimalFunc
+//@   ints wrap64
 //@   requires receiver != nil && istype(receiver, *object.Int)
 //@   ensures result1 == nil ==> result0 != nil
 //@   modifies nothing
 //@ func boolBinaryFunc
+//@   ints wrap64
 //@   goal binary: result1 == nil && isInt(result0, ite(as(receiver, *object.Bool).Value, 1, 0))
 //@   requires receiver != nil && istype(receiver, *object.Bool)
 //@   ensures result1 == nil ==> result0 != nil
 //@   modifies nothing
 //@ func boolThenFunc
+//@   ints wrap64
 //@   goal selects-by-truth: len(args) >= 1 ==> result1 == nil && ite(as(receiver, *object.Bool).Value, result0 == args[0], ite(len(args) == 1, istype(result0, *object.Nil), result0 == args[1]))
 //@   goal needs-an-argument: len(args) == 0 ==> result1 != nil
 //@   requires receiver != nil && istype(receiver, *object.Bool)
 //@   ensures result1 == nil ==> result0 != nil
 //@   modifies nothing
 //@ func addDecimals
+//@   ints wrap64
 //@   requires receiver != nil && (objType == object.STR_OBJ ==> istype(receiver, *object.Str)) && (objType == object.INT_OBJ ==> istype(receiver, *object.Int))
 //@   ensures result1 == nil ==> result0 != nil
 //@   modifies nothing
